@@ -79,7 +79,7 @@ def run_one(run, drv, P, scratch, params):
     for w, r in c.results.items():
         fl = flags.get(w, (False, False, False))
         if saw.get(w):
-            ok = (r == ('ret', True)) if fl[0] else (r[0] == 'raise' and r[1] == 'TaskFailure')
+            ok = (r == ('ret', True)) if fl[0] else (r[0] == 'raise' and r[1] in [c_.__name__ for c_ in lib.EXC_TYPES])
             if not ok:
                 X.fail_case(run, 'failure-not-reported', 'worker %d had a failing task (keep_going=%s) but ended with %s (exit status would be 0)' % (w, fl[0], r), P, params)
         elif r != ('ret', False):
@@ -172,6 +172,7 @@ def check(run):
             os.makedirs(scratch, exist_ok=True)
         phased_failure_family(run)
         deep_chain_failure(run)
+        many_failures_family(run)
         if drv is not None and run.corr_disagreements == 0:
             run.obligation('trace validation: %d real histories with failing tasks (%d events) accepted by the Lean model' % (run.counts.get('traces_validated', 0), run.counts.get('trace_events_validated', 0)), True)
     finally:
@@ -253,6 +254,34 @@ def phased_failure_family(run):
                 core.rm_rf(d)
 
 
+MANYFAIL = '''from jug import TaskGenerator
+@TaskGenerator
+def boom(k):
+    raise ValueError(k)
+@TaskGenerator
+def ok(k):
+    return k
+bs = [boom(k) for k in range(%(n)d)]
+os_ = [ok(k) for k in range(3)]
+'''
+
+
+def many_failures_family(run):
+    """the exit status must be non-zero however many tasks failed (256 and 512 failures included: exit statuses are taken modulo 256)"""
+    from jugverif.loadercheck import jug_cli
+    for nfail in (1, 256, 512):
+        d = core.scratch_dir()
+        try:
+            open(os.path.join(d, 'jugfile.py'), 'w').write(MANYFAIL % {'n': nfail})
+            r = jug_cli(['execute', '--will-cite', '--keep-going', '--nr-wait-cycles', '1', '--wait-cycle-time', '0', 'jugfile.py'], d, timeout=600)
+            run.case(('many-failures', nfail), nontrivial=True)
+            run.count('many_failures_runs')
+            if r.returncode == 0:
+                run.fail('exit-zero-after-failure', '`jug execute --keep-going` with %d failing tasks: exit status 0' % nfail, {'kind': 'many-failures', 'n': nfail})
+        finally:
+            core.rm_rf(d)
+
+
 def deep_chain_failure(run):
     """a failure while a long chain of tasks is still queued (the failure handling must not depend on the depth of the DAG)"""
     import jug.jug
@@ -301,6 +330,9 @@ def deep_chain_failure(run):
 def replay(path):
     import json
     d = json.load(open(path))
+    if d['replay'].get('kind') == 'many-failures':
+        print(d['what'])
+        return core.replay_family('C11', d['key'], many_failures_family)
     if d['replay'].get('kind') == 'deep-chain-failure':
         print(d['what'])
         return core.replay_family('C11', d['key'], deep_chain_failure)
